@@ -81,6 +81,7 @@ static int sim_register(void){
   simvfs.xRandomness=vRand; simvfs.xSleep=vSleep; simvfs.xCurrentTime=vTime; simvfs.xGetLastError=vLastErr;
   return sqlite3_vfs_register(&simvfs, 0);
 }
+static int sim_make_default(void){ if (sim_register()) return 1; return sqlite3_vfs_register(&simvfs, 1); }
 static void sim_crash(long at, long torn){ crash_at = at; torn_bytes = torn; }
 static void sim_fail(long a, long b, int m){ fail_from=a; fail_to=b; fail_mode=m; }
 static long sim_count(void){ return opcount; }
@@ -94,6 +95,15 @@ import "fmt"
 func RegisterVFS() error {
 	if rc := C.sim_register(); rc != 0 {
 		return fmt.Errorf("sqlite3_vfs_register rc=%d", rc)
+	}
+	return nil
+}
+
+// RegisterVFSDefault registers the shim and makes it the process's default VFS, so that connections opened without naming
+// a VFS (as the production binary opens its database) go through it too.
+func RegisterVFSDefault() error {
+	if rc := C.sim_make_default(); rc != 0 {
+		return fmt.Errorf("sqlite3_vfs_register(default) rc=%d", rc)
 	}
 	return nil
 }
